@@ -1,4 +1,5 @@
 import PyodaProofs.C13
+import PyodaProofs.C13Conc
 
 #print axioms Pyoda.C13.year_key_injective
 #print axioms Pyoda.C13.yearCache_transparent
@@ -11,3 +12,7 @@ import PyodaProofs.C13
 #print axioms Pyoda.C13.yearCache_interleaved
 #print axioms Pyoda.C13.lazy_locked_same_object_interleaved
 #print axioms Pyoda.C13.lazy_unlocked_counterexample
+#print axioms Pyoda.C13.zoneCache_interleaved
+#print axioms Pyoda.C13.hebrewCache_interleaved
+#print axioms Pyoda.C13.lru_locked_linearizable
+#print axioms Pyoda.C13.formatInfo_transparent
